@@ -100,6 +100,9 @@ def decide_and_report(args, mod, merged, broken, wall):
         print("VIOLATION property=%s replay=%s" % (args.prop, path))
 
     reasons = list(merged["inconclusive"]) + broken
+    if hasattr(mod, "post_merge"):
+        # requirements that only make sense over all shards together (e.g. the coverage matrix is completely hit)
+        reasons += list(mod.post_merge(merged, args) or [])
     if merged["timed_out"]:
         merged["notes"]["watchdog_fired"] = True
         if getattr(mod, "TIMEOUT_IS_INCONCLUSIVE", False):
